@@ -3,7 +3,10 @@
 spec/Schema.tla maps an entity diagram to an abstract schema (tables; columns with nullability; primary key;
 unique sets; indexes; foreign keys with on-delete action) or to "rejected", and contains a transcription of
 Pony's name generation with max_name_len as a parameter.  spec/SchemaTables.tla enumerates the bounded space
-of diagrams and exports, for every backend configuration, what is expected.
+of diagrams and exports, for every backend configuration, what is expected.  The space includes entities whose
+primary key is, or contains, a reference (x = PrimaryKey(A); PrimaryKey(owner, no)): the key columns are also
+the child columns of a foreign key, which the catalog must show with its parent columns and on-delete action
+like the one of any other reference, and for which no separate index exists when they lead the primary key.
 
 E1 (real SQLite, max_name_len 1024 and an artificial 8): every diagram is declared through Pony's real API
 (the class statements are generated from the diagram and exec'ed), `generate_mapping(create_tables=True)` runs
@@ -267,6 +270,8 @@ def compare(exp, cat):
             diffs.append('%s unique sets: expected %s, database has %s' % (tname, sorted(map(sorted, euniq)), sorted(map(sorted, cuniq))))
         declared = [(tuple(nm(x) for x in i['cols']), nm(i['name']) if i['explicit'] else None) for i in t['idx']]
         fkidx_ok = [(tuple(nm(x) for x in f['cols']), nm(f['iname']) if f['explicit'] else None) for f in t['fks'] if f['indexed']]
+        # the indexes the schema has for the sake of a foreign key: none where the key or a declared index leads with its columns
+        fkidx = [(tuple(nm(x) for x in f['cols']), nm(f['name']) if f['explicit'] else None) for f in t['fkidx']]
         rest = list(c['indexes'])
         for cols, name in declared:
             hit = [r for r in rest if r[1] == cols and (name is None or r[0] == name)]
@@ -277,6 +282,9 @@ def compare(exp, cat):
         for r in rest:
             if not any(r[1] == cols and (name is None or r[0] == name) for cols, name in fkidx_ok):
                 diffs.append('%s: index %s on %s was not declared and serves no foreign key' % (tname, r[0], r[1]))
+            elif not any(r[1] == cols and (name is None or r[0] == name) for cols, name in fkidx):
+                diffs.append('%s: index %s on %s repeats the leading columns of the primary key, a unique set or a declared index'
+                             % (tname, r[0], r[1]))
         lookups = [tuple(c['pk'])] + [tuple(u) for u in c['uniques']] + [r[1] for r in c['indexes']]
         for cols, name in fkidx_ok:
             if not any(l[:len(cols)] == cols for l in lookups):
@@ -302,6 +310,9 @@ def signature(cfg, kind, d, exp, extra=''):
     if exp['status'] == 'mapped' and kind == 'crash-AssertionError' and 'm2m-default-name-is-an-entity-table' in exp['notes']:
         # an entity whose table is called like the default link table of a relationship declared before it
         return 'C26:m2m-default-table-name-taken-by-later-entity:AssertionError'
+    if exp['status'] == 'rejected' and sorted(exp['reasons']) == ['primary-key-contains-itself'] and kind == 'crash-RecursionError':
+        # an entity whose primary key is made from the primary key of the same entity (directly or through another entity)
+        return 'C26:primary-key-contains-itself:RecursionError'
     why = ''
     if exp['status'] == 'rejected':
         why = '+'.join(sorted(exp['reasons']))
@@ -316,11 +327,12 @@ def spec_cfg(c):
 
 FAMILY_GROUPS = [['scalar', 'composite', 'relation', 'relation-in-key', 'inheritance', 'inheritance-rel', 'inheritance-key'],
                  ['m2m', 'm2m-self', 'm2m-names', 'names-case', 'names-long-m2m', 'shared-table'],
-                 ['names-long']]
+                 ['names-long'],
+                 ['pk-reference', 'pk-reference-composite', 'pk-reference-chain', 'pk-reference-cycle']]
 
 
 def tlc_cases(ctx):
-    """Expected outcomes of every diagram for every configuration (three TLC runs side by side)."""
+    """Expected outcomes of every diagram for every configuration (a few TLC runs side by side)."""
     spec_cfgs = [spec_cfg(c) for c in CFGS]
 
     def one(k):
@@ -380,6 +392,10 @@ def judge_and_report(ctx, pending, stats):
                     continue
                 if len(exp['tables']) > 1 or any(t['fks'] or t['uniques'] or t['idx'] for t in exp['tables']):
                     stats['nontrivial_catalogs'] += 1
+                for t in exp['tables']:
+                    if not t['m2m'] and any(set(map(nm, f['cols'])) <= set(map(nm, t['pk'])) for f in t['fks']):
+                        stats['catalogs_with_foreign_key_inside_primary_key'] += 1
+                        break
             ctx.sample({'declarations': src, 'backend': where, 'outcome': 'accepted; names usable' +
                         ('; catalog equals the abstract schema; check_tables passed' if cfg['real'] else '')})
         elif outcome == 'rejected' or (outcome == 'crash-AssertionError' and exp['status'] == 'rejected'):
